@@ -63,10 +63,27 @@ def family_ok(alg, kid):
     return False
 
 
+_JWK_IDS = {}
+
+
+def kid_of_jwk(d):
+    """a JWK dict (as carried in a token's own header) names one of the known keys, or nothing"""
+    if not _JWK_IDS:
+        for kid, k in keys().items():
+            for name in ((kid,) if k["kind"] == "oct" else (kid, kid + ".pub")):
+                j = material(name, "jwk")
+                _JWK_IDS[json.dumps({x: j[x] for x in j if x not in ("kid", "use", "key_ops", "alg")}, sort_keys=True)] = name
+    if not isinstance(d, dict):
+        return None
+    return _JWK_IDS.get(json.dumps({x: d[x] for x in d if x not in ("kid", "use", "key_ops", "alg")}, sort_keys=True))
+
+
 def prepare(alg, kid):
     """None = refused; otherwise the prepared key (its id)."""
     if alg == "none":
         return "none-key"
+    if isinstance(kid, dict):
+        kid = kid_of_jwk(kid)
     if not isinstance(kid, str) or not family_ok(alg, kid):
         return None
     return kid
